@@ -1,7 +1,31 @@
 /// Generate a random frame mask.
+#[cfg(not(tungstenite_verif))]
 #[inline]
 pub fn generate_mask() -> [u8; 4] {
     rand::random()
+}
+
+/// Verification hook (`--cfg tungstenite_verif`): deterministic mask sequence
+/// `key_i = be_bytes(seed + i * 0x9E3779B1)`, reset with [`verif_set_mask_seed`].
+#[cfg(tungstenite_verif)]
+#[inline]
+pub fn generate_mask() -> [u8; 4] {
+    VERIF_MASK_STATE.with(|s| {
+        let v = s.get();
+        s.set(v.wrapping_add(0x9E37_79B1));
+        v.to_be_bytes()
+    })
+}
+
+#[cfg(tungstenite_verif)]
+thread_local! {
+    static VERIF_MASK_STATE: std::cell::Cell<u32> = const { std::cell::Cell::new(0) };
+}
+
+/// Verification hook (`--cfg tungstenite_verif`): restart the deterministic mask sequence.
+#[cfg(tungstenite_verif)]
+pub fn verif_set_mask_seed(seed: u32) {
+    VERIF_MASK_STATE.with(|s| s.set(seed));
 }
 
 /// Mask/unmask a frame.
